@@ -470,6 +470,17 @@ func runSelftest(repo, prop, speclib string, kf *KnownFindings) []map[string]int
 				if matchFinding(kf, prop, o.Name) != nil {
 					continue
 				}
+				// a recorded finding of another property is not evidence that this change was caught
+				foreign := false
+				for i := range kf.Findings {
+					f := &kf.Findings[i]
+					if f.Property != prop && matchFinding(kf, f.Property, o.Name) == f {
+						foreign = true
+					}
+				}
+				if foreign {
+					continue
+				}
 				failing = append(failing, normObl(o.Name))
 			}
 			if len(rep.Errors) > 0 {
